@@ -354,7 +354,7 @@ theorem pyMergeOk_of_fromSpec (env : Env) (he : EnvTotal env) (hF : FromSpecOk e
     -- the normalised view of the python_version atom
     have hgv := hvm.2
     simp only [h1v, if_false, h2v, Bool.false_eq_true, hvlv, if_true] at hgv
-    obtain ⟨_, _, hnorm, _⟩ := hgv.resolve_left (by simp [hxv])
+    obtain ⟨_, _, hnorm⟩ := hgv.resolve_left (by simp [hxv])
     obtain ⟨cf, nf, kf⟩ := good_ordinary env fm hfm h1f h2f hxf
     rw [hnf] at kf
     unfold Atom.Coherent at cf
@@ -386,7 +386,7 @@ theorem pyMergeOk_of_fromSpec (env : Env) (he : EnvTotal env) (hF : FromSpecOk e
         · simp only [hb, Bool.false_eq_true, if_false] at h
           rw [← hsem.1]
           cases merged with
-          | ver s => exact hF _ s m hvl hsem.2 (fun hx => absurd hx (by decide)) h
+          | ver s => exact hF _ s m hvl hsem.2 h
           | gen g =>
             -- a python_full_version atom's view is a version specifier, so the merge is one too
             exfalso
@@ -436,7 +436,7 @@ theorem matchesFinal_congr (op : COp) (hop : op ≠ .compat) (x y v : Ver) (h : 
 /-- what `_normalize_python_version_specifier` may return for an atom whose text lexes to the clause
     `c`: the atom's own view, or the parse of the structured normalisation `normClause2` -/
 def NormShape (a : Atom) (c : Clause Ver) (ns : ASpec) : Prop :=
-  (ns = a.spec ∧ (c.wild = true ∨ c.op = .compat ∨ ∃ i, 2 ≤ i ∧ nth0 c.ver.release i ≠ 0)) ∨
+  (ns = a.spec ∧ (c.wild = true ∨ c.op = .compat) ∧ c.ver.release.length ≤ 2) ∨
   ∃ A B sn, c.wild = false ∧ c.op ≠ .compat ∧ c.ver.epoch = 0 ∧ c.ver.isFinal = true ∧
     (∀ i, nth0 c.ver.release i = nth0 [A, B] i) ∧
     fromClause (normClause2 c.op A B) = some sn ∧ ns = .ver ((Spec.range {}).and sn)
@@ -733,6 +733,61 @@ theorem list_len_two {β : Type} : ∀ (l : List β), l.length = 2 → ∃ a b, 
   | _ :: _ :: _ :: _, h => by simp at h
 
 /-- a view that renders as `~=V`, `==V.*` or `!=V.*` is half-open -/
+theorem nth0_short (l : List Nat) (i : Nat) (h : l.length ≤ i) : nth0 l i = 0 := by
+  unfold nth0
+  simp [List.getD_eq_getElem?_getD, List.getElem?_eq_none h]
+
+theorem releaseVersion_tail2 (e : Nat) (r : List Nat) (hr : r.length ≤ 2) :
+    ∀ i, 2 ≤ i → nth0 (Ver.releaseVersion e r).release i = 0 := by
+  intro i hi
+  simp only [Ver.releaseVersion]
+  rw [nth0_append_zero]
+  exact nth0_short r i (by omega)
+
+theorem nextSeries_tail2 (v mx : Ver) (n : Nat) (hn : n ≤ 2) (h : v.nextSeries n = some mx) :
+    ∀ i, 2 ≤ i → nth0 mx.release i = 0 := by
+  obtain ⟨init, last, htk, rfl⟩ := nextSeries_eq v n mx h
+  have hlen : (init ++ [last + 1]).length ≤ 2 := by
+    have h1 := congrArg List.length htk
+    have h2 : (v.release.take n).length ≤ n := by rw [List.length_take]; omega
+    simp only [List.length_append, List.length_cons, List.length_nil] at h1 ⊢
+    omega
+  exact releaseVersion_tail2 _ _ hlen
+
+/-- the view the parser builds from a wildcard / `~=` clause over at most two release components has
+    two-component bounds and half-open ranges: it does not tell `X.Y` from `X.Y.Z` -/
+theorem fromClause_short (c : Clause Ver) (s1 : Spec Ver) (hfc : fromClause c = some s1) (hfin : FinalV c.ver)
+    (hshort : c.ver.release.length ≤ 2) (hr : (c.wild = true ∧ (c.op = .eq ∨ c.op = .ne)) ∨ c.op = .compat) :
+    BoundsIn Pv2 s1 ∧ HalfOpen s1 := by
+  rcases c with ⟨op, v, w⟩
+  simp only at hfc hfin hshort hr
+  have he : v.epoch = 0 := hfin.2.1
+  have hv2 : Pv2 v := ⟨hfin, fun i hi => nth0_short _ _ (by omega)⟩
+  have hrv : Pv2 (Ver.releaseVersion v.epoch v.release) :=
+    ⟨by rw [he]; exact releaseVersion_final _, releaseVersion_tail2 _ _ hshort⟩
+  have key : ∀ n mx, n ≤ 2 → v.nextSeries n = some mx → Pv2 mx :=
+    fun n mx hn h => ⟨nextSeries_final v mx n he h, nextSeries_tail2 v mx n hn h⟩
+  rcases hr with ⟨rfl, rfl | rfl⟩ | rfl
+  · simp only [fromClause, Option.map_eq_some_iff] at hfc
+    obtain ⟨mx, hmx, rfl⟩ := hfc
+    have hm := key _ mx hshort hmx
+    refine ⟨boundsIn_of_allVers _ _ ?_, ?_⟩
+    · simp [Spec.AllVers, Range.AllVers]; exact ⟨hrv, hm, hv2⟩
+    · simp [HalfOpen, HalfOpenR]
+  · simp only [fromClause, Option.map_eq_some_iff] at hfc
+    obtain ⟨mx, hmx, rfl⟩ := hfc
+    have hm := key _ mx hshort hmx
+    refine ⟨boundsIn_of_allVers _ _ ?_, ?_⟩
+    · simp [Spec.AllVers, Range.AllVers]; exact ⟨⟨hrv, hm⟩, hv2⟩
+    · simp [HalfOpen, HalfOpenR]
+  · cases w <;>
+    · simp only [fromClause, Option.map_eq_some_iff] at hfc
+      obtain ⟨mx, hmx, rfl⟩ := hfc
+      have hm := key _ mx (by omega) hmx
+      refine ⟨boundsIn_of_allVers _ _ ?_, ?_⟩
+      · simp [Spec.AllVers, Range.AllVers]; exact ⟨hv2, hm, hv2⟩
+      · simp [HalfOpen, HalfOpenR]
+
 theorem render_halfopen (s : Spec Ver) (c : Clause Ver) (hn : C06.Nice s) (hc : fsClause? s = some c)
     (hr : (c.wild = true ∧ (c.op = .eq ∨ c.op = .ne)) ∨ c.op = .compat) : HalfOpen s := by
   have flags : ∀ x r : Range Ver, x.beq r = true → x.min.isSome = true → x.max.isSome = true →
@@ -886,7 +941,7 @@ theorem normGood_of_lex (env : Env) (he : EnvTotal env) (a : Atom) (c : Clause V
     (hN : ∀ ns, normalizePythonVersion a = some ns → NormShape a c ns)
     (hw : a.WF) (hname : a.name = "python_version") (hop : a.op ≠ .in_ ∧ a.op ≠ .notIn)
     (hl : C11.LexOne a c) (hcoh : a.Coherent env) (hnice : a.spec.Canon)
-    (hpv : (c.wild = true ∨ c.op = .compat ∨ ∃ i, 2 ≤ i ∧ nth0 c.ver.release i ≠ 0) → PvSem env a.spec) :
+    (hpv : (c.wild = true ∨ c.op = .compat) → c.ver.release.length ≤ 2 → PvSem env a.spec) :
     NormGood env a := by
   intro _ ns hns
   have hvl : versionLikeNames.contains a.name = true := by rw [hname]; decide
@@ -897,10 +952,10 @@ theorem normGood_of_lex (env : Env) (he : EnvTotal env) (a : Atom) (c : Clause V
   obtain ⟨s0, hs0, hspec⟩ := spec_of_lex a c hw hvl hop hl
   unfold Atom.Coherent at hcoh
   rw [hname] at hcoh
-  rcases hN ns hns with ⟨rfl, hreason⟩ | ⟨A, B, sn, hwild, hnc, he0, hfin, hseq, hsn, rfl⟩
+  rcases hN ns hns with ⟨rfl, hreason, hshort⟩ | ⟨A, B, sn, hwild, hnc, he0, hfin, hseq, hsn, rfl⟩
   · refine ⟨?_, hnice, ?_⟩
     · rw [hcoh, hspec, holds_ver, holds_ver, hf, hpvv]
-      have hpv' := hpv hreason
+      have hpv' := hpv hreason hshort
       rw [hspec] at hpv'
       exact (decide_eq_decide.2 (hpv' _ _ hpvv hf)).symm
     · rw [hspec]; exact hvlf
@@ -929,7 +984,7 @@ theorem normGood_of_lex (env : Env) (he : EnvTotal env) (a : Atom) (c : Clause V
     reading it back is proved (`lexPrint_final`); only `LexNormOk` is assumed, and only for the
     python_version atoms it builds. -/
 theorem fromSpecOk_of_lex (env : Env) (he : EnvTotal env) (hN : LexNormOk) : FromSpecOk env := by
-  intro name s m hvl hnice hpvs hm
+  intro name s m hvl hnice hm
   have hn : C06.Nice s := hnice
   obtain ⟨v, hv⟩ : ∃ v, envVer env name = some v := Option.isSome_iff_exists.1 (he.ver name hvl)
   have hfin := he.verFinal name v hv
@@ -1042,35 +1097,26 @@ theorem fromSpecOk_of_lex (env : Env) (he : EnvTotal env) (hN : LexNormOk) : Fro
                   have hs01 : s0 = s1 := by rw [hfc] at hfc1; exact Option.some.inj hfc1
                   have hbeq' : s1.beq s = true := by
                     rw [← hs01, ← any_and_fromClause c s0 hfc]; exact hbeq
-                  have hpb : BoundsIn Pv2 ((Spec.range {}).and s1) := by
-                    rw [any_and_fromClause c s1 hfc1]
-                    exact fromClause_pv2 c s1 s hfc1 (fsClause_final s c hn hc) (hpvs hnm) hbeq'
-                  refine Or.inr ⟨hcoh, hnice', ?_, fun _ => hpb⟩
+                  refine Or.inr ⟨hcoh, hnice', ?_⟩
                   refine normGood_of_lex env he a' (fsC name c) ?_ hwf hnm hopn ⟨halts, hone⟩ hcoh hnice' ?_
                   · intro ns hns
                     rw [hfsC]
                     subst hnm
                     exact hN c _ ns (fsClause_final s c hn hc) hwf hns
-                  · -- the unchanged case: the view is half-open over two-component bounds, hence saturated
+                  · -- the unchanged case: a wildcard / `~=` clause over at most two components; what the parser
+                    -- builds from it is half-open over two-component bounds, hence saturated
                     rw [hfsC]
-                    intro hreason
-                    have hsat : PvSem env (.ver s) := by
-                      by_cases hwc : (c.wild = true ∧ (c.op = .eq ∨ c.op = .ne)) ∨ c.op = .compat
-                      · exact pvsem_halfopen env he s (render_halfopen s c hn hc hwc) (hpvs hnm)
-                      · exfalso
-                        have hwf' : c.wild = false := by
-                          cases hw : c.wild
-                          · rfl
-                          · exact absurd (Or.inl ⟨hw, parseClauseL_wild_op _ c (by rw [← hfsC]; exact hone) hw⟩) hwc
-                        have hncomp : c.op ≠ .compat := fun h => hwc (Or.inr h)
-                        rcases hreason with h | h | ⟨i, hi, hne⟩
-                        · rw [hwf'] at h; cases h
-                        · exact hncomp h
-                        · exact hne ((fsClause_pv2_plain s c (hpvs hnm) hc hwf').2 i hi)
+                    intro hreason hshort
+                    have hwc : (c.wild = true ∧ (c.op = .eq ∨ c.op = .ne)) ∨ c.op = .compat := by
+                      rcases hreason with hw | hcmp
+                      · exact Or.inl ⟨hw, parseClauseL_wild_op _ c (by rw [← hfsC]; exact hone) hw⟩
+                      · exact Or.inr hcmp
+                    obtain ⟨hb1, hh1⟩ := fromClause_short c s1 hfc1 (fsClause_final s c hn hc) hshort hwc
+                    have hsat : PvSem env (.ver s1) := pvsem_halfopen env he s1 hh1 hb1
                     intro pv f hpv hf
-                    rw [hmemAll, hmemAll]
+                    rw [C11.any_and_mem, C11.any_and_mem]
                     exact hsat pv f hpv hf
-                · refine Or.inr ⟨hcoh, hnice', fun h => absurd h hnm, fun h => absurd h hnm⟩
+                · refine Or.inr ⟨hcoh, hnice', fun h => absurd h hnm⟩
               refine ⟨hgood, ?_⟩
               have := hcoh
               unfold Atom.Coherent at this
